@@ -524,7 +524,9 @@ class C15(Check):
             name, dim, o = combos()[gi]
             p.update({"gen": name, "dim": dim, "opts": o, "shape": list(rng.choice(SHAPES[dim])), "view": rng.choice(["contig", "contig", "padded"]), "repeats": 3})
             p["fidelity"] = (gi % 8 == run % 8) if run < n_gen else rng.random() < 0.15
-            p["blocking_probe"] = bool(o["num_threads"]) and o["precision"] == "double" and not o.get("fixed") and o.get("filter_order", 1) == 1 and o.get("width", 2) == 2 and (run < n_gen or rng.random() < 0.2)
+            # serial builds of the kernels: blocking inside a wrapper does not need threads, and real OpenMP teams on
+            # 2.7M-cell arrays in 16 concurrent worker processes proved fragile under load
+            p["blocking_probe"] = (not o["num_threads"]) and o["precision"] == "double" and not o.get("fixed") and o.get("filter_order", 1) == 1 and o.get("width", 2) == 2 and (run < n_gen or rng.random() < 0.2)
             p["precision"] = o["precision"]
         elif target in ("ns2d", "ns3d"):
             dim = 2 if target == "ns2d" else 3
@@ -549,7 +551,7 @@ class C15(Check):
             if p["n_markers"] > 100:
                 p["repeat_identical"] = min(p["repeat_identical"], 30)
         if target != "gen":
-            p["thread_diff"] = {"engine": "compiled" if rng.random() < 0.3 else "ir", "threads": rng.choice([2, 3, 4, 4, 8])}
+            p["thread_diff"] = {"engine": "compiled" if rng.random() < 0.3 else "ir", "threads": rng.choice([2, 3, 4, 4])}
             if target == "interaction":
                 # the interactor's documented default is num_threads=False (serial): compare against that, too
                 p["thread_diff"]["serial_default"] = rng.random() < 0.5
@@ -736,6 +738,14 @@ class C15(Check):
                     # thread differential); a deterministic blocking dependence always does
                     res.probe("blocking_probe_mismatch_first_attempt")
                     bad = compare_once(keep)
+                if bad:
+                    # ... and in a newly forked process (nothing this process did before can play a part)
+                    from ..driver import fork_map
+
+                    confirmed = [pl for _, st_, pl in fork_map(lambda _k: compare_once(keep), [0], 1, 600) if st_ == "ok"]
+                    if not confirmed or confirmed[0] is None:
+                        res.probe("blocking_probe_mismatch_not_confirmed_in_new_process")
+                        bad = None
                 if bad:
                     res.violation(
                         "blocking_dependence",
